@@ -24,6 +24,10 @@ def tyFlags (ty : String) : Nat × TyFlags :=
   if ty.startsWith "t" then ((ty.drop 1).toString.toNat!,
     { trivCopyCtor := false, trivMoveCtor := false, trivDtor := false, trivCopyAssign := false,
       trivMoveAssign := false, trivSwap := false, eqMemcmp := false, lexMemcmp := false }) else
+  -- user-provided constructors and destructor, trivial assignment
+  if ty.startsWith "c" then ((ty.drop 1).toString.toNat!,
+    { trivCopyCtor := false, trivMoveCtor := false, trivDtor := false, trivCopyAssign := true,
+      trivMoveAssign := true, trivSwap := false, eqMemcmp := false, lexMemcmp := false }) else
   (0, {})
 
 def parseParam (s : String) : Param :=
@@ -93,7 +97,7 @@ def parseTy (s : String) : Option Ty :=
 
 def parseForm (s : String) : Option Form :=
   [("vecL", Form.vecL), ("vecR", .vecR), ("listL", .listL), ("listR", .listR), ("arrL", .arrL), ("stdArrL", .stdArrL),
-   ("genL", .genL), ("ptr", .ptr), ("vecIt", .vecIt), ("listIt", .listIt), ("moveIt", .moveIt)].lookup s
+   ("genL", .genL), ("ptr", .ptr), ("vecIt", .vecIt), ("listIt", .listIt), ("moveIt", .moveIt), ("revIt", .revIt), ("deqIt", .deqIt)].lookup s
 
 def vidx (s : String) : Nat := (s.drop 1).toString.toNat!
 
@@ -240,7 +244,7 @@ def step (st : St) (line : String) : St × List String :=
     match parseTy t, parseTy u, parseForm f with
     | some t, some u, some f =>
       let xs := parseList items
-      let st' := stored f t u xs
+      let st' := stored f t u (if f == .revIt then xs.reverse else xs)   -- a reverse iterator hands out the items back to front
       let mv := u == .cnt && movesEach f t u
       let cp := u == .cnt && path f t u == .copyEach
       let src := if mv then xs.map (fun _ => 0) else xs
